@@ -363,6 +363,37 @@ fn mesh_sample(spec: &MeshSpec, mode: &Sample) -> Verdict {
                     }
                 }
             }
+            // history on the sampled object: it is moved, sampled, then a far-away copy of the original is appended and
+            // it is sampled again; the original and the appended half now hold equal areas and must share the samples
+            {
+                let mut hm = mesh;
+                let shift = engeom::Iso3::translation(3.0 * size + 10.0, -2.0 * size, size);
+                hm.transform(&shift);
+                let _ = hm.sample_uniform(200);
+                let other = bm.mesh(false);
+                if hm.append(&other).is_ok() {
+                    let m = 8_000usize;
+                    let pts2 = match guarded(|| hm.sample_uniform(m)) {
+                        Ok(p) => p,
+                        Err(msg) => return Verdict::fail("C15/sample_uniform/history/panic", msg),
+                    };
+                    ensure!(pts2.len() == m, "C15/sample_uniform/history/count", "{} points for n = {m} after append", pts2.len());
+                    let moved = crate::oracle::Soup { v: soup.v.iter().map(|q| shift * q).collect(), f: soup.f.clone() };
+                    let (mut on_old, mut on_new) = (0usize, 0usize);
+                    for sp in &pts2 {
+                        let (d_new, d_old) = (soup.closest(&sp.point).0, moved.closest(&sp.point).0);
+                        ensure!(d_new <= tol + 1e-9 * (3.0 * size + 10.0) || d_old <= tol + 1e-9 * (3.0 * size + 10.0), "C15/sample_uniform/history/not_on_surface", "after move + append a sample lies {:e} / {:e} from the two halves of the mesh", d_old, d_new);
+                        if d_new < d_old {
+                            on_new += 1;
+                        } else {
+                            on_old += 1;
+                        }
+                    }
+                    let sigma = (m as f64 * 0.25).sqrt();
+                    ensure!((on_new as f64 - m as f64 * 0.5).abs() <= 6.5 * sigma + 1.0, "C15/sample_uniform/history/appended_half_not_sampled_by_area", "after sampling, moving and appending an equal-area copy, {on_new} of {m} samples lie on the appended half and {on_old} on the original (expected {:.0} +- {sigma:.0} each)", m as f64 * 0.5);
+                    cx.label("sample_uniform_history");
+                }
+            }
         }
         Sample::Dense(f) => {
             cx.label("sample_dense");
